@@ -3,14 +3,14 @@ ENTRY = {
     "level": "proof",
     "families": [fam("SQL", 300, 15000, opts={"quick": _OPTS, "thorough": dict(_OPTS, sizes="tiny,small,mid")})],
     "gen_items": [],
-    "rule": "generated statements with a VALUES list of 1-5 rows x 1-3 literal columns (BIGINT/DOUBLE/VARCHAR/BOOLEAN/DATE, NULLs after the first row): "
+    "rule": "size stream (1 case in 12): VALUES lists of 1, 2, 999-1001, 1023-1025, 1500, 2048, 2049, 3000, 8192, 8193, 10001 rows, bare or under COUNT(*)/SUM/MIN/MAX; otherwise generated statements with a VALUES list of 1-5 rows x 1-3 literal columns (BIGINT/DOUBLE/VARCHAR/BOOLEAN/DATE, NULLs after the first row): "
             "bare VALUES, SELECT ... FROM (VALUES ...) v [WHERE], VALUES joined to generated tables (inner/outer/semi/anti/cross), VALUES aggregated; "
             "run through ExecutionContext::sql over single- and multi-batch memory tables; oracle = Spec.acceptable on the engine's rows, an engine error counts as failure; "
             "non-trivial = engine answered and the reference answer is non-empty; distinct by sha256 of the canonical case",
     "trusted_base": COMMON_TB + ["modelled not verified: planner arm LogicalPlan::Values (IQE.Engine.Values.lower)",
                                  "SQL reference semantics IQE.Spec (ours); SQL text <-> plan correspondence is the generator's (harness/src/sqlgen)"],
     "assumptions": ["VALUES rows hold literals only (the binder evaluates nothing else there); the first row is non-NULL (the engine types a column by its first row)"],
-    "min_tags": {"f:values_bare": 1, "f:values_from": 1, "f:values_join": 1, "f:values_agg": 1},
+    "min_tags": {"f:values_bare": 1, "f:values_from": 1, "f:values_join": 1, "f:values_agg": 1, "f:values_long": 10},
     "manifest": {
         "category": "proof",
         "text": "Lean theorems: Spec.run of a VALUES list of literals is exactly its rows (all catalogs/environments); it is indistinguishable from a stored table with those rows under every operator context (congruence); the model of the planner's lowering equals the reference with all switches off and is wrong on EVERY non-empty list with the valuesEmpty deviation of the unchanged tree. Tie: generated VALUES statements through ExecutionContext::sql judged by Spec.acceptable.",
